@@ -40,6 +40,7 @@ def worker_main(prop, tier, seed, shard, nshards, outfile):
                crashed=[], truncated=False, generated=0)
     keys = set()
     nviol = 0
+    findings = load_findings(prop)
     for idx, spec in enumerate(mod.cases(tier, seed)):
         agg["generated"] = idx + 1
         if idx % nshards != shard:
@@ -69,8 +70,11 @@ def worker_main(prop, tier, seed, shard, nshards, outfile):
         if out.sample is not None and len(agg["samples"]) < 2:
             agg["samples"].append(human(out.sample))
         if out.violations:
-            nviol += 1
-            agg["violations"].append(dict(spec=enc(spec), violations=out.violations))
+            unknown = [v for v in out.violations if match_finding(findings, v) is None]
+            if unknown:
+                nviol += 1
+            if unknown or len(agg["violations"]) < 200:
+                agg["violations"].append(dict(spec=enc(spec), violations=out.violations))
             if nviol >= MAX_VIOL_PER_WORKER:
                 agg["truncated"] = True
                 break
